@@ -80,6 +80,12 @@ def run (ctx):
            "the callback is invoked before the entry leaves the waiter list: a callback that registers a component re-enters _try_waiters and fires this waiter a second time", (mod, c.ast), 'D1')
     ctx.ob('R-CONTAIN', tw, "a failing callback does not propagate", not g.raises_out(c) and any(h.ast.type is None or norm(h.ast.type) in ('Exception', 'BaseException') for h in g.handlers_for(c)),
            "call inside a catch-all try" if not g.raises_out(c) else "the callback's exception escapes _try_waiter: register() fails and later waiters are not tried", (mod, c.ast), 'D1')
+    wide_ = [h for h in g.handlers_for(c) if h.ast.type is None or norm(h.ast.type) in ('Exception', 'BaseException')]
+    if wide_ and not g.raises_out(c):
+      total_ = [h for h in wide_ if h.ast.type is None or norm(h.ast.type) == 'BaseException']
+      ctx.ob('R-CONTAIN', tw, "no failure of a callback propagates - not only Exception subclasses", bool(total_), "bare except / BaseException" if total_ else
+             "the widest handler around the callback is `except %s`: a callback that raises SystemExit / KeyboardInterrupt leaves _try_waiter - the sweep of the waiter list stops and the waiters behind it, although ready, do not fire"
+             % norm(wide_[0].ast.type), (mod, wide_[0].ast), 'D1')
     call = [x for x in q.node_calls(c) if isinstance(x.func, ast.Name) and x.func.id == 'callback'][0]
     stars = [norm(a.value) for a in call.args if isinstance(a, ast.Starred)] + [norm(k.value) for k in call.keywords if k.arg is None]
     ctx.ob('R-AGREE', tw, "callback receives the arguments stored with the entry", len(stars) == 2, "callback(%s)" % ", ".join(stars), (mod, c.ast), 'D1')
